@@ -26,7 +26,9 @@ def classify(src_dir, event_kind, skip=2):
                 f = f.f_back
                 depth += 1
                 continue
-            return _from_frame(f, name, event_kind, via_user)
+            out = _from_frame(f, name, event_kind, via_user)
+            out['lazy_stream'] = _in_stream_generator(f, src_dir)
+            return out
         else:
             # a frame outside glom between the collaborator and glom: user code / boltons / harness
             if 'glomsim' not in fn:
@@ -34,6 +36,21 @@ def classify(src_dir, event_kind, skip=2):
         f = f.f_back
         depth += 1
     return {'kind': 'unknown', 'fn': None}
+
+
+def _in_stream_generator(f, src_dir):
+    """is a generator FUNCTION of glom's streaming module on the stack?  (Iter is lazy by contract, so
+    its element loop is a generator frame, and Python turns a StopIteration that crosses a generator
+    frame into RuntimeError -- PEP 479, not glom's doing)"""
+    depth = 0
+    while f is not None and depth < 80:
+        c = f.f_code
+        if c.co_flags & 0x20 and c.co_filename.startswith(src_dir) and c.co_filename.endswith('streaming.py') \
+                and not c.co_name.startswith('<'):
+            return True
+        f = f.f_back
+        depth += 1
+    return False
 
 
 def _from_frame(f, name, event_kind, via_user):
